@@ -175,7 +175,7 @@ structure XcmpCore where
 inductive RunOutcome where
   | ret (code : Nat) (fs : Fs) (stderr : Bool) (out : Stdout)
   | error (located : Bool)     -- `hexutil::Error` escapes (only out of `run`)
-  | exn                        -- another `std::exception` escapes
+  | exn (out : Stdout)         -- another `std::exception` escapes (after `out` had been printed)
 
 def stdoutOfAction (action : Action) (mem : Bool) : Stdout :=
   if action = .binary then (if mem then .text else .none) else .text
@@ -187,16 +187,16 @@ def driverRun (xc : XcmpCore) (action : Action) (input : String) (inputIsFilenam
     if inputIsFilename then fs.read input                 -- lexer.openFile(input)
     else some (input.toUTF8.toList.map (fun b => BitVec.ofNat 8 b.toNat))   -- lexer.loadBuffer(input)
   match src with
-  | none => .exn                                          -- runtime_error("could not open file")
+  | none => .exn .none                                    -- runtime_error("could not open file")
   | some s =>
     match xc.compile action mem s with
     | .error l => .error l
-    | .exn => .exn
+    | .exn => .exn .none
     | .ok img =>
       if action = .binary then
         match emitBin fs outputBinaryFilename img with
         | some fs' => .ret 0 fs' false (stdoutOfAction action mem)
-        | none => .exn
+        | none => .exn (stdoutOfAction action mem)         -- the listing of --memory-info is already out
       else .ret 0 fs false (stdoutOfAction action mem)
 
 /-- `Driver::runCatchExceptions`: only `hexutil::Error` is caught here (diagnostic, `return 1`). -/
@@ -248,7 +248,7 @@ def xcmpLoop : List String → XcmpOpts → Args XcmpOpts
 def resultOfRun (fs : Fs) : RunOutcome → Result
   | .ret code fs' err out => ⟨code, fs', err, out⟩
   | .error _ => ⟨1, fs, true, .none⟩
-  | .exn => ⟨1, fs, true, .none⟩
+  | .exn out => ⟨1, fs, true, out⟩
 
 def xcmpBody (xc : XcmpCore) (o : XcmpOpts) (fs : Fs) : Result :=
   match o.inputFilename with
@@ -360,7 +360,7 @@ def xrunBody (xc : XcmpCore) (sim : SimCore) (o : RunOpts) (fs : Fs) : Result :=
     | .ret 0 fs' _ _ => simulate sim o.trace o.maxCycles "a.bin" fs'    -- return processor.run() (repair)
     | .ret code fs' err out => ⟨code, fs', err, out⟩                     -- return 1 (repair)
     | .error _ => ⟨1, fs, true, .none⟩
-    | .exn => ⟨1, fs, true, .none⟩
+    | .exn out => ⟨1, fs, true, out⟩
 
 def xrunMain (xc : XcmpCore) (sim : SimCore) (args : List String) (fs : Fs) : Result :=
   match xrunLoop args {} with
